@@ -915,7 +915,34 @@ def block_tasks(real, m, skip=()):
     return z3.Or(lits) if lits else z3.BoolVal(False)
 
 
-def run_c06(script, rng, summary):
+def deletion_inside_theorem(driver, script, script2, t):
+    """do the Lean models of the script and of the script without optional task t meet every hypothesis of
+    `C06_deletion_sound` (State.dropTaskTheoremB, evaluated by the driver on this very pair)?"""
+    if driver is None:
+        return False
+    try:
+        driver.reset()
+        for d in script:
+            ln = pslib.to_line(d)
+            if ln is not None:
+                driver.send(ln)
+        driver.send("(mark)")
+        driver.reset()
+        for d in script2:
+            ln = pslib.to_line(d)
+            if ln is not None:
+                driver.send(ln)
+        return driver.send_multi(f"(drop-task-theorem {pslib.q(t)})")[1] == ["true"]
+    except Exception:  # noqa: BLE001
+        return False
+
+
+def run_c06(script, rng, summary, driver=None):
+    v = _run_c06(script, rng, summary, driver)
+    return v
+
+
+def _run_c06(script, rng, summary, driver=None):
     real = pslib.Real()
     real.run(script)
     opts = [n for n, t in real.tasks.items() if t.optional]
@@ -938,6 +965,10 @@ def run_c06(script, rng, summary):
         return None
     count(summary, "run_c06")
     summary["nontrivial"].append("run" + str(hash(str((script, t)))))
+    if deletion_inside_theorem(driver, script, script2, t):
+        # the Lean theorem applies to this pair of models: a schedule leaving t unscheduled is valid for the one iff it is
+        # valid for the other
+        count(summary, "run_c06_deletions_inside_C06_deletion_sound")
     unsched = real.tasks[t]._scheduled == False  # noqa: E712
     # do the optional-task rules themselves allow leaving t unscheduled?
     rules = z3.Solver(); rules.set("timeout", 10000)
